@@ -301,6 +301,7 @@ func runC12(r *mc.Run) {
 	r.SectionDone(mc.Section{Name: "option-combinations", Evaluations: int64(done) * 5, Exhaustive: done == len(worlds)})
 
 	c12Composed(r)
+	c12HeaderSpellings(r)
 
 	// (b) histories through one shared options value on a virtual clock
 	if !strings.Contains(os.Getenv("VERIF_OVERLAY"), "time") {
@@ -308,6 +309,95 @@ func runC12(r *mc.Run) {
 		return
 	}
 	c12Histories(r)
+}
+
+// c12HeaderSpellings: responses whose header map carries the issuer chain under SEVERAL spellings of the header name
+// with different values (a getter need not hand out a canonicalised map). Whatever the library makes of such a map,
+// the verdict is a function of the fetched data: every such world is verified repeatedly, with fresh options and with
+// one shared options value, and all verdicts must be the same. The one source of variation here, the order in which
+// Go iterates a map, is not under the explorer's control: each world is repeated 32 times (two entries: two orders,
+// a miss has probability 2^-31; three entries: six orders).
+func c12HeaderSpellings(r *mc.Run) {
+	spell := func(canon string, how int) string {
+		switch how {
+		case 1:
+			return strings.ToLower(canon)
+		case 2:
+			return strings.ToUpper(canon)
+		case 3:
+			return strings.ToLower(canon[:1]) + canon[1:]
+		}
+		return canon
+	}
+	type shape struct {
+		name    string
+		entries [][2]int // (spelling, 0 good / 1 broken / 2 chain of another PKI)
+	}
+	shapes := []shape{
+		{"lower=good,upper=broken", [][2]int{{1, 0}, {2, 1}}}, {"lower=broken,upper=good", [][2]int{{1, 1}, {2, 0}}},
+		{"lower=good,mixed=foreign", [][2]int{{1, 0}, {3, 2}}}, {"lower=good,upper=broken,mixed=foreign", [][2]int{{1, 0}, {2, 1}, {3, 2}}},
+		{"canonical=good,lower=broken", [][2]int{{0, 0}, {1, 1}}}, {"canonical=broken,lower=good", [][2]int{{0, 1}, {1, 0}}},
+		{"lower=good", [][2]int{{1, 0}}}, {"upper=good,lower=good", [][2]int{{2, 0}, {1, 0}}},
+	}
+	F := world.CachedPKI("F")
+	n := 0
+	for di, doc := range []string{"tcbinfo", "qeidentity", "pckcrl"} {
+		for _, sh := range shapes {
+			for _, level := range []int{world.L1, world.L2} {
+				if doc == "pckcrl" && level == world.L1 {
+					continue
+				}
+				id := fmt.Sprintf("header-spellings/%s/%s/%s", doc, sh.name, lvlName[level])
+				if !r.Want(id) {
+					continue
+				}
+				n++
+				w := world.Honest("T")
+				canon := []string{world.HdrTcbInfo, world.HdrQeIdentity, world.HdrPckCrl}[di]
+				good := [][]string{w.TcbHdr[canon], w.QeHdr[canon], w.PckHdr[canon]}[di]
+				foreign := []string{world.IssuerChainHeader(F.Tcb, F.Root)}
+				if doc == "pckcrl" {
+					foreign = []string{world.IssuerChainHeader(F.Inter, F.Root)}
+				}
+				h := map[string][]string{}
+				for _, e := range sh.entries {
+					h[spell(canon, e[0])] = [][]string{good, {"broken"}, foreign}[e[1]]
+				}
+				switch di {
+				case 0:
+					w.TcbHdr = h
+				case 1:
+					w.QeHdr = h
+				case 2:
+					w.PckHdr = h
+				}
+				w.BuildGetter()
+				var first string
+				shared := w.Options(level)
+				same := true
+				for rep := 0; rep < 32 && same; rep++ {
+					for _, o := range []*verify.Options{w.Options(level), shared} {
+						o.Getter = w.Getter.Clone()
+						err := world.SafeVerifyRaw(w.Raw(), o)
+						v := verdict(err)
+						if world.IsPanic(err) {
+							continue // C10
+						}
+						if first == "" {
+							first = v
+						} else if v != first {
+							same = false
+							r.Violate("header-spellings:verdict-varies:"+doc, id, fmt.Sprintf("the same quote, options and responses are judged %q and then %q (repetition %d): %s", first, v, rep, errStr(err)), nil)
+							break
+						}
+					}
+				}
+				r.Eval(id, true, fmt.Sprintf("header-spellings:%s:same=%v", first, same))
+			}
+		}
+	}
+	r.SectionDone(mc.Section{Name: "header-spellings", Evaluations: int64(n) * 64, Exhaustive: true,
+		Note: "exhaustive over the listed header-map shapes; the iteration order of a Go map is outside the explorer's control, each shape is repeated 32 times with fresh and with shared options"})
 }
 
 type c12op struct {
